@@ -1,11 +1,19 @@
 #!/bin/sh
-# builds the extracted checker: /verif/ocaml/gen/*.ml (from Coq) + chk.ml -> /verif/.cache/chk
+# builds the extracted checkers:
+#   /verif/.cache/chk   specification checker  (Check/Run.v)        -- independent of the translated model
+#   /verif/.cache/chkm  model correspondence   (Check/RunModel.v)   -- Gen/DcelOps.v + Tri/Legalize.v vs implementation
+# usage: build.sh [spec|model|all]
 set -e
 cd "$(dirname "$0")"
-mkdir -p gen ../.cache/ocaml
-( cd gen && rm -f *.ml *.mli && coqc -Q ../../coq/theories SpadeV ../../coq/theories/Check/Extract.v >/dev/null )
-python3 ../tools/codes.py ml > gen/Codes_tbl.ml
-rm -rf ../.cache/ocaml/*; cp gen/*.ml gen/*.mli chk.ml ../.cache/ocaml/
-cd ../.cache/ocaml
-ocamlfind ocamlopt -O2 -package zarith -linkpkg -w -a $(ocamlfind ocamldep -sort *.ml *.mli 2>/dev/null | tr ' ' '\n' | grep -v '^$' | tr '\n' ' ') -o ../chk 2>&1 || \
-ocamlfind ocamlopt -package zarith -linkpkg -w -a $(ocamlfind ocamldep -sort *.ml *.mli | tr '\n' ' ') -o ../chk
+WHAT=${1:-all}
+build() {  # $1 = extraction file, $2 = gen dir, $3 = work dir, $4 = output, $5 = entry point
+  mkdir -p $2 ../.cache/$3
+  ( cd $2 && rm -f *.ml *.mli && coqc -Q ../../coq/theories SpadeV ../../coq/theories/Check/$1 >/dev/null )
+  python3 ../tools/codes.py ml > $2/Codes_tbl.ml
+  rm -rf ../.cache/$3/*; cp $2/*.ml $2/*.mli ../.cache/$3/
+  sed "s/Run\.run_case/$5/" chk.ml > ../.cache/$3/chk.ml
+  ( cd ../.cache/$3 && ocamlfind ocamlopt -O2 -package zarith -linkpkg -w -a $(ocamlfind ocamldep -sort *.ml *.mli 2>/dev/null | tr '\n' ' ') -o ../$4 2>/dev/null || \
+    ocamlfind ocamlopt -package zarith -linkpkg -w -a $(ocamlfind ocamldep -sort *.ml *.mli | tr '\n' ' ') -o ../$4 )
+}
+if [ "$WHAT" = spec ] || [ "$WHAT" = all ]; then build Extract.v gen ocaml chk Run.run_case; fi
+if [ "$WHAT" = model ] || [ "$WHAT" = all ]; then build ExtractModel.v genm ocamlm chkm RunModel.run_model_case; fi
